@@ -45,6 +45,14 @@ def sleaf(t):
 def flatten_ite(t):
     """nested ite -> list of ([(cond, truth)...], leaf)"""
     if isinstance(t, tuple) and t and t[0] == "ite":
+        c = strip(t[1])
+        # compound conditions (short-circuit && / || merged by the evaluator into one gated value) split into their atoms
+        if isinstance(c, tuple) and c and c[0] == "bin" and c[1] == "BitAnd" and c[-1] == "bool":
+            return flatten_ite(("ite", c[2], ("ite", c[3], t[2], t[3]), t[3]))
+        if isinstance(c, tuple) and c and c[0] == "bin" and c[1] == "BitOr" and c[-1] == "bool":
+            return flatten_ite(("ite", c[2], t[2], ("ite", c[3], t[2], t[3])))
+        if isinstance(c, tuple) and c and c[0] == "un" and c[1] == "Not":
+            return flatten_ite(("ite", c[2], t[3], t[2]))
         out = []
         for cs, leaf in flatten_ite(t[2]):
             out.append(([(t[1], True)] + cs, leaf))
@@ -346,11 +354,43 @@ def check_index_alpha(ctx, P):
         ((P0, False), (SAME, False), (I0, False)): LL - SL,
     }
     want = {tuple(sorted(k)): v for k, v in want.items()}
-    bad = [k for k in want if tb.get(k) != want[k]] + [k for k in tb if k not in want]
-    ctx.check(not bad and len(tb) == 7, "index", "reference-area", "the 7 cases of |W| (pass 0 / later passes x same lane x first index) equal RFC 9106 3.4.1.1", "index_alpha's reference-area size differs from RFC 9106 in case %s: %s" % (bad[:1], (tb.get(bad[0]).show() if bad and tb.get(bad[0]) is not None else None)), where=fn.where(), key="index:reference-area")
+    def as_function(rows):
+        """a decision table as a function of its atomic conditions: {assignment of the canonical atoms -> leaf}; `X Ne k`
+        is the negation of the atom `X Eq k`, so tables that nest or merge their tests differently compare equal"""
+        import itertools
+        def canon_atom(cs, v):
+            m_ = re.match(r"^(.*) Ne (.*)$", cs)
+            return ("%s Eq %s" % (m_.group(1), m_.group(2)), not v) if m_ else (cs, v)
+        crow = [([canon_atom(c_, v_) for c_, v_ in k_], leaf_) for k_, leaf_ in rows.items()]
+        atoms = sorted({a_ for conds_, _ in crow for a_, _v in conds_})
+        out = {}
+        for vals in itertools.product((False, True), repeat=len(atoms)):
+            asg = dict(zip(atoms, vals))
+            hit = [leaf_ for conds_, leaf_ in crow if all(asg[a_] == v_ for a_, v_ in conds_)]
+            out[tuple(sorted(asg.items()))] = hit[0] if len(hit) == 1 else ("ambiguous", len(hit))
+        return atoms, out
+
+    def same_function(got, want_):
+        ag, fg = as_function(got)
+        aw, fw = as_function(want_)
+        if set(ag) != set(aw):
+            # compare on the union of atoms: a table that does not test an atom is constant in it
+            import itertools
+            allat = sorted(set(ag) | set(aw))
+            def ext(atoms, f):
+                o = {}
+                for vals in itertools.product((False, True), repeat=len(allat)):
+                    asg = dict(zip(allat, vals))
+                    o[tuple(sorted(asg.items()))] = f[tuple(sorted((a_, asg[a_]) for a_ in atoms))]
+                return o
+            fg, fw = ext(ag, fg), ext(aw, fw)
+        return [k_ for k_ in fw if fg.get(k_) != fw[k_]]
+    bad = same_function(tb, want) if tb else [("no table",)]
+    # the same lane / first index conditions are mutually exclusive with nothing: all combinations are reachable
+    ctx.check(not bad, "index", "reference-area", "the 7 cases of |W| (pass 0 / later passes x same lane x first index) equal RFC 9106 3.4.1.1", "index_alpha's reference-area size differs from RFC 9106 in case %s: %s" % (bad[:1], (tb.get(bad[0]).show() if bad and tb.get(bad[0]) is not None else None)), where=fn.where(), key="index:reference-area")
     ts = table(start)
     wants = {tuple(sorted(k)): v for k, v in {((("arg2.pass Ne 0"), True), (("arg2.slice Eq 3"), True)): Poly(), ((("arg2.pass Ne 0"), True), (("arg2.slice Eq 3"), False)): (S + one) * SL, ((("arg2.pass Ne 0"), False),): Poly()}.items()}
-    ctx.check(ts == wants, "index", "start-position", "start = 0 in pass 0 or the last slice, else (slice + 1) * segment_length", "index_alpha's start position differs from RFC 9106: %s" % {k: v.show() for k, v in ts.items()}, where=fn.where(), key="index:start-position")
+    ctx.check(bool(ts) and not same_function(ts, wants), "index", "start-position", "start = 0 in pass 0 or the last slice, else (slice + 1) * segment_length", "index_alpha's start position differs from RFC 9106: %s" % {k: v.show() for k, v in ts.items()}, where=fn.where(), key="index:start-position")
     # mapping: z = W - 1 - ((W * ((J1*J1) >> 32)) >> 32)
     LP = limbpoly.LimbPoly(lambda t: sleaf(t) if t[0] in ("load", "in") else None, opaque=lambda t: "W" if t == W else None)
     v = LP.val(rel)
